@@ -7,6 +7,7 @@ Static clauses:
   S-DECLARED an argument is inserted only for a key the template declares (control-dependent on params.get(&key) being Some)
              and is coerced with that declared type
   S-TYPES   from_json has a non-error arm for each scalar Type it documents (Int, Bool, Bytes, Address, UtxoRef, Undefined)
+  S-ALLSUPPLIED every entry supplied under `args` / `env` reaches the per-key lookup: no filtering / truncating adaptor on the way
   NOFLOAT   no floating-point operation or cast in the closure of from_json (a JSON number never passes through f64)
   ENCODINGS each documented textual encoding is realised by its library primitive on the decoding path (Number::as_i128,
             i128 from_str_radix with radix 10, i128::from_be_bytes over a `[u8; 16]` obtained by try_from, hex::decode,
